@@ -30,3 +30,6 @@ def run(ck):
     pipeline.store_pipeline(ck, "C01.R2", want_bounds=False)
     fresh.no_class_state_writes(ck, "C20.R7")
     flags.sticky_and_ownership(ck, "C20.R3")
+    fresh.no_hidden_state(ck, "C20.R8")                  # results depend on the documented state only (no caches / memos)
+    funcs.routes_converge(ck, "C15.R1")
+    funcs.functions_return_results(ck, "C20.R9")
